@@ -647,9 +647,85 @@ def gen_case(w: World, rng: random.Random, max_ops: int, search: bool) -> list[t
 			args = []
 		return args
 
-	new_cont()
-	if rng.random() < 0.5:
-		new_cont()
+	def valid_args(c: int, fid: int) -> list[tuple[int, int]]:
+		annos = [p for p in w.desc[fid][1] if p is not None]
+		n = 0
+		for a in annos:
+			if a[0] not in ref.conts[c].ents:
+				break
+			n += 1
+		out = []
+		for a in annos[n:]:
+			xid[0] += 1
+			out.append((xid[0], a[0]))
+		return out
+
+	def bad_args(c: int, fid: int) -> list[tuple[int, int]]:
+		args = valid_args(c, fid)
+		r = rng.random()
+		xid[0] += 1
+		if r < 0.35 or not args:
+			return [*args, (xid[0], rng.choice([TY_STR, TY_INT, 0]))]
+		if r < 0.7:
+			i = rng.randrange(len(args))
+			return [*args[:i], (args[i][0], TY_INT if args[i][1] != TY_INT else TY_STR), *args[i + 1:]]
+		return args[:-1]
+
+	def scenario() -> None:
+		"""structured prefixes: history shapes the property names explicitly (DESIGN §5 C19, CONVENTIONS 15/16)"""
+		kind = rng.choice(['invoke-combine-invoke', 'generic-alias', 'combine-after-resolve', 'clone-lazy', 'none', 'none'])
+		lazy = rng.random() < 0.5
+		if kind == 'none':
+			new_cont()
+			if rng.random() < 0.5:
+				new_cont()
+			return
+		emit(('new', 'lazy', [(s, rinj()) for s in rng.sample(range(NSYM), rng.randint(0, 3))]) if lazy else ('new', 'di'))
+		if kind == 'invoke-combine-invoke':
+			fid = rng.choice([1, 2, 3, 4, 8, 9, 10, 11, 16, 17, 18])
+			for p in w.desc[fid][1]:
+				if p is not None and p[0] < NSYM and rng.random() < 0.6:
+					emit(('bind', 0, p, rng.choice([0, 15, 12])))
+			emit(('invoke', 0, fid, valid_args(0, fid)))
+			emit(('new', 'lazy', [(rng.randrange(NSYM), rinj())]) if lazy else ('new', 'di'))
+			if rng.random() < 0.5:
+				emit(('bind', 1, rsym(1, False), rng.choice([0, 15, 12])))
+			emit(('combine', 0, 1) if rng.random() < 0.7 else ('clone', 0))
+			emit(('invoke', 2, fid, bad_args(2, fid)))
+			emit(('invoke', 2, fid, valid_args(2, fid)))
+			emit(('invoke', 0, fid, bad_args(0, fid)))
+		elif kind == 'generic-alias':
+			k = rng.choice([4, 5])
+			emit(('bind', 0, (k, rng.random() < 0.5), rng.choice([0, 15, 12])))
+			emit(('resolve', 0, (k, rng.random() < 0.5)))
+			emit(rng.choice([('unbind', 0, (k, True)), ('rebind', 0, (k, True), rng.choice([0, 15])), ('rebind', 0, (k, False), 12)]))
+			emit(('can', 0, (k, rng.random() < 0.5)))
+			emit(('resolve', 0, (k, rng.random() < 0.5)))
+			emit(('bind', 0, (k, rng.random() < 0.5), 0))
+			emit(('resolve', 0, (k, False)))
+		elif kind == 'combine-after-resolve':
+			s = rsym()
+			emit(('bind', 0, s, rng.choice([0, 15, 12])))
+			if rng.random() < 0.7:
+				emit(('resolve', 0, s))
+			emit(('new', 'lazy', [(s[0], rinj())] if rng.random() < 0.6 else []) if lazy else ('new', 'di'))
+			if not lazy or rng.random() < 0.4:
+				emit(('bind', 1, s, rng.choice([0, 15, 12])))
+			if rng.random() < 0.5:
+				emit(('resolve', 1, s))
+			emit(('combine', 0, 1))
+			emit(('resolve', 2, s))
+			emit(('rebind', 2, s, rng.choice([0, 15])))
+			for c in rng.sample([0, 1, 2], 3):
+				emit(('resolve', c, s))
+		elif kind == 'clone-lazy':
+			s = rsym(0, True)
+			emit(('clone', 0))
+			emit(('resolve', 1, s))
+			emit(('resolve', 0, s))
+			emit(('resolve', 1, s))
+
+	scenario()
 	n_ops = rng.randint(max(4, max_ops // 3), max_ops)
 	last_inv: tuple | None = None
 	while len(ops) < n_ops:
